@@ -68,6 +68,11 @@ def cases(tier):
             out.append({"family": "daily", "model": name, "usage": True, "pat": list(pat)})
         for pat in itertools.product(range(len(ALPHA_T)), repeat=nn):
             out.append({"family": "daily", "model": name, "usage": False, "pat": list(pat)})
+        if name in ("full_smooth", "split4"):
+            for pat in itertools.product(range(len(ALPHA_DAILY)), repeat=4):
+                out.append({"family": "daily", "model": name, "usage": True, "pat": list(pat), "frame": "window_only"})
+            for pat in itertools.product(range(len(ALPHA_T)), repeat=4):
+                out.append({"family": "daily", "model": name, "usage": False, "pat": list(pat), "frame": "window_only"})
     # billing: T pattern over 3 days straddling a period boundary x state of the two adjoining periods x aggregation
     for name in BILLING_MODELS:
         for pat in itertools.product(range(len(ALPHA_T)), repeat=3):
@@ -91,15 +96,21 @@ def _apply_T(T, pos, sym):
 def build_daily(case):
     import opendsm.eemeter as em
 
-    idx = ds.local_days("2021-05-01", 40, ZONE)
-    T = 35.0 + 1.25 * np.arange(40.0)  # 35..83.75F: heating, dead band and cooling all occur
-    y = 100.0 + np.arange(40.0)
-    exp_T_ok = np.ones(40, bool)
-    exp_U_ok = np.ones(40, bool)
+    if case.get("frame") == "window_only":
+        # the reporting data consists of the window alone: includes the patterns in which NO day is complete
+        N, w0 = len(case["pat"]), 0
+        idx = ds.local_days("2021-05-28", N, ZONE)
+    else:
+        N, w0 = 40, WINDOW_START
+        idx = ds.local_days("2021-05-01", 40, ZONE)
+    T = 35.0 + 1.25 * np.arange(float(N)) + (0.0 if N == 40 else 25.0)  # heating, dead band and cooling all occur
+    y = 100.0 + np.arange(float(N))
+    exp_T_ok = np.ones(N, bool)
+    exp_U_ok = np.ones(N, bool)
     alpha = ALPHA_DAILY if case["usage"] else ALPHA_T
     for j, s in enumerate(case["pat"]):
         sym = alpha[s]
-        pos = WINDOW_START + j
+        pos = w0 + j
         _apply_T(T, pos, sym)
         if sym in ("Tnan", "Tpinf", "Tninf", "TUnan"):
             exp_T_ok[pos] = False
@@ -244,8 +255,8 @@ def run_case(case):
             viol.append({"clause": "column_sums_biased", "key": key,
                          "detail": f"sum(predicted)-sum(observed)={col!r} but row-wise savings over complete days={row_sav!r}"})
         beh = ["".join("B" if a and b else "P" if a else "O" if b else "-" for a, b in
-                       zip(pred_has[WINDOW_START - 1:WINDOW_START + 6] if fam == "daily" else pred_has[28:92:3],
-                           obs_has[WINDOW_START - 1:WINDOW_START + 6] if fam == "daily" else obs_has[28:92:3]))]
+                       zip(pred_has[max(0, len(pred_has) - 14):] if fam == "daily" else pred_has[28:92:3],
+                           obs_has[max(0, len(obs_has) - 14):] if fam == "daily" else obs_has[28:92:3]))]
         # the harness's own expectation of which days are complete must agree with the data object (non-vacuity of the driver)
         nontrivial = bool((~T_fin).any() or (~U_has).any())
     else:
@@ -255,7 +266,7 @@ def run_case(case):
                          "detail": f"no usage supplied; {p.index[j]}: temperature={p['temperature'].iloc[j]!r} predicted={p['predicted'].iloc[j]!r}"})
         if "observed" in p.columns and p["observed"].notna().any():
             viol.append({"clause": "observed_invented", "key": key, "detail": "observed values appear although none were supplied"})
-        beh = ["".join("P" if a else "-" for a in (pred_has[WINDOW_START - 1:WINDOW_START + 6] if fam == "daily" else pred_has[56:66]))]
+        beh = ["".join("P" if a else "-" for a in (pred_has[max(0, len(pred_has) - 14):] if fam == "daily" else pred_has[56:66]))]
         nontrivial = bool((~T_fin).any())
     return {"behaviour": beh, "violations": viol, "nontrivial": nontrivial, "stats": {"rows": int(len(p))}}
 
